@@ -13,7 +13,7 @@ OBLIGATIONS = [
     'C01.gmul_assoc', 'C01.one_gmul', 'C01.gmul_one', 'C01.left_distrib', 'C01.right_distrib',
     'C01.smul_mul', 'C01.mul_smul',
     'C01.basis_sq', 'C01.basis_anticomm', 'C01.blade_append_generator', 'C01.vector_sq',
-    'C01.fromMathlib_ι', 'C01.fromMathlib_surjective', 'C01.model_is_the_clifford_algebra', 'C01.model_iso_apply_ι', 'C01.sigOfCl_spec', 'C01.table_contraction_is_canonical_product', 'C01.executable_product_is_canonical',
+    'C01.fromMathlib_ι', 'C01.fromMathlib_surjective', 'C01.model_is_the_clifford_algebra', 'C01.model_iso_apply_ι', 'C01.model_universal_property', 'C01.sigOfCl_spec', 'C01.table_contraction_is_canonical_product', 'C01.executable_product_is_canonical',
 ]
 PENDING = ['the arrays built by BasisBladeOrder (index_to_bitmap / bitmap_to_index mutually inverse) enter the storage-level theorem as its hypothesis and are compared with the implementation, not derived from mkLayout']
 RULE = ("layouts: exhaustive {+1,-1,0}^n signatures for small n, seeded random signatures/ids/orders above; "
